@@ -3,7 +3,7 @@ import vlib
 from vlib import Job
 
 
-def strategies(ctx, quick_n=120, thorough_n=3000, dfs_quick=1, dfs_thorough=2, dfs_cap_quick=1500, dfs_cap_thorough=60000):
+def strategies(ctx, quick_n=90, thorough_n=3000, dfs_quick=1, dfs_thorough=2, dfs_cap_quick=1000, dfs_cap_thorough=60000):
     """list of (strategy, n, bound) used for every (variant, program) pair"""
     if ctx.quick():
         return [("dfs", dfs_cap_quick, dfs_quick), ("pct", quick_n, 0), ("random", quick_n // 2, 0)]
